@@ -290,3 +290,25 @@ pub fn replay(cases: &[TraitCase], case: &Value) -> CaseOut {
     let f = tc.containers.iter().find(|c| c.0 == cont).unwrap().1;
     compare(tc, cont, &d, &f(&seq))
 }
+
+/// One cell of the C08 cast matrix (generated by gen/groups_gen.py).
+pub struct Cell {
+    pub name: &'static str,
+    pub group: &'static str,
+    pub enabled: &'static str,
+    pub requested: &'static str,
+    pub container: &'static str,
+    pub op: &'static str,
+    pub expect: bool,
+    pub run: fn() -> Result<u64, (String, String)>,
+}
+
+/// One cell of the C04 group layout matrix.
+pub struct LayoutCell {
+    pub name: &'static str,
+    pub group: &'static str,
+    pub enabled: &'static str,
+    pub container: &'static str,
+    pub context: bool,
+    pub run: fn() -> Result<u64, (String, String)>,
+}
